@@ -253,6 +253,30 @@ impl<D: Dec> Walker<D> {
 }
 
 pub fn run<D: Dec>(rep: &mut Report) {
+    // ---- after a very long run of one thing (a held key, a rejected byte, an ill-placed prefix pair) on a decoder with a history:
+    //      every 2^k + d repetitions the decoder – which has just reported an event or an error – must be in its initial condition
+    {
+        let kmax: u32 = if light() { 17 } else if rep.thorough() { 26 } else { 24 };
+        let points = soak_checkpoints::<D>(kmax);
+        let mut n = 0u64;
+        for sp in points.iter() {
+            n += 1;
+            if let Some((cont, want, gotc)) = first_behavioural_difference(&sp.d) {
+                let uni = universe();
+                rep.violate(
+                    format!("C07|{}|after-soak|unit=[{}]|cont=[{}]|want={}|got={}", set_name(D::SET), hex_bytes(&sp.unit), hex_bytes(&cont), enc_res_str(want, &uni), enc_res_str(gotc, &uni)),
+                    format!(
+                        "{}: {} (after [{}]): after {} repetitions of [{}] the decoder is not in its initial condition: the following bytes [{}] give {} where a fresh decoder gives {}",
+                        set_name(D::SET), sp.what, hex_bytes(&sp.pre), sp.n, hex_bytes(&sp.unit), hex_bytes(&cont), enc_res_str(gotc, &uni), enc_res_str(want, &uni)
+                    ),
+                    J::obj().with("kind", J::s("checkpointed-soak")).with("set", J::u(D::SET as u64)).with("pre_hex", J::s(hex_bytes(&sp.pre))).with("unit_hex", J::s(hex_bytes(&sp.unit))).with("repetitions", J::u(sp.n)).with("continuation_hex", J::s(hex_bytes(&cont))),
+                );
+                break;
+            }
+        }
+        rep.evaluations += n * 66_000;
+        rep.count(&format!("{}_decoders_probed_at_soak_checkpoints", set_name(D::SET)), n);
+    }
     let set = D::SET;
     let uni = universe();
     let fresh = D::fresh();
